@@ -171,6 +171,35 @@ def rule_debug_tuple_sibling(ctx):
                 )
         except X.Unsupported as u:
             ctx.note(f"SIB-EXEC cannot evaluate the padding adapter ({u}); textual comparison used")
+    # every other method the adapter's `Write` impl overrides must behave like core's (the trait's defaults go through
+    # `write_str`, so an override is a second copy of the indentation logic)
+    over = sorted(fn.name for fn in A.functions(lib) if fn.qual.startswith("<Padded as Write>::") and fn.name != "write_str")
+    ctx.instance("sibexec:pad-adapter:overrides", sample={"overridden besides write_str": over})
+    for name in over:
+        dqo = f"<Padded as Write>::{name}"
+        cqo = [q for q in cf if q.split("::")[-1] == name and "PadAdapter" in q and " as " in q]
+        if name != "write_char" or len(cqo) != 1:
+            ctx.report(f"sib:pad adapter {name}", ctx.where(lib, df[dqo].node), f"`{dqo}` overrides a `fmt::Write` method that this rule cannot compare with core's adapter: its indentation behaviour is unaudited", {})
+            continue
+        try:
+            for on in (True, False):
+                for nl in (True, False):
+                    a = X.run_write_char(df[dqo], {fn.name: fn for fn in A.functions(lib) if fn.qual.startswith("Padded::")}, on, nl)
+                    b = X.run_write_char(cf[cqo[0]], {fn.name: fn for fn in A.functions(core) if fn.qual.startswith("PadAdapter::")}, on, nl)
+                    ctx.instance(f"sibexec:pad-adapter:write_char:on_newline={on},c_is_newline={nl}", sample={"trace": [str(t) for t in a[0]], "on_newline after": a[1]})
+                    if a != b:
+                        ctx.report(
+                            "sib:pad adapter write_char",
+                            ctx.where(lib, df[dqo].node),
+                            f"`{dqo}` differs from core's `PadAdapter::write_char` for on_newline={on}, c=='\\n' is {nl}: derive_more writes {[str(t) for t in a[0]]} and leaves on_newline={a[1]}, core writes {[str(t) for t in b[0]]} and leaves on_newline={b[1]}: "
+                            "a field whose Debug output writes a newline through `write_char` is continued without indentation",
+                            {},
+                        )
+                        raise StopIteration
+        except X.Unsupported as u:
+            ctx.report("sib:pad adapter write_char", ctx.where(lib, df[dqo].node), f"`{dqo}` cannot be evaluated ({u}); an override of `write_char` must keep the `on_newline` state like core's", {})
+        except StopIteration:
+            pass
     # the constructor: what is written first and how the builder starts
     if "debug_tuple" in df and "debug_tuple_new" in cf:
         try:
